@@ -9,7 +9,7 @@ import json
 import os
 import random
 
-from .. import corpus, gen, ops, proc, seams
+from .. import corpus, gen, gen_dag, ops, proc, seams
 from ..seams import SIM
 
 BUDGET = {"quick": 150.0, "thorough": 3300.0}
@@ -431,6 +431,10 @@ def _swarm_op(rng, source):
         kw["return_only_persistent"] = False
     if out_folder and rng.random() < 0.4:
         kw["output_format"] = "parquet"
+    if source[0] == "dag":
+        g = random.Random(source[1])
+        w = gen_dag.generate(g, n_statements=g.choice([2, 3, 4]), rows=g.choice([2, 3]), scalar_bias=0.4)
+        return gen.as_op(w, kwargs=kw, env=env, output_folder=out_folder or g.random() < 0.5)
     if source[0] == "gen":
         force_dialect = len(source) > 2 and source[2] == "dialect"
         w = gen.generate(random.Random(source[1]), n_statements=rng.choice([1, 2, 3, 3, 4]),
@@ -456,6 +460,8 @@ def run(ctx):
     scen = []
     for i in range(n_gen):
         scen.append(("gen", rng.randrange(1 << 30)) if i % 8 else ("gen", rng.randrange(1 << 30), "dialect"))
+    for i in range(3 if quick else 60):
+        scen.append(("dag", rng.randrange(1 << 30)))      # scalar results, UDOs, rulesets; half of them write result files
     cps = [e for e in corpus.discover() if e["bytes"] < 20000]
     for e in rng.sample(cps, min(n_corpus, len(cps))):
         scen.append(("corpus", e))
@@ -467,7 +473,7 @@ def run(ctx):
     tasks = []
     for i, s in enumerate(scen):
         op = _swarm_op(rng, s)
-        tasks.append({"sid": "%s-%d" % (s[0], i) if s[0] == "gen" else "corpus:" + s[1]["id"], "op": op, "seed": ctx.seed})
+        tasks.append({"sid": "%s-%d" % (s[0], i) if s[0] in ("gen", "dag") else "corpus:" + s[1]["id"], "op": op, "seed": ctx.seed})
     nat = natural_failures(rng)
     # phase 1: references
     refs = ctx.map("task_reference", tasks, budget_s=ctx.budget_s * 0.25, min_tasks=8)
